@@ -7,7 +7,7 @@ import ArcSwapModel.Tie.LibSwap
 import ArcSwapModel.Tie.LibStore
 import ArcSwapModel.Tie.HybridCas
 import ArcSwapModel.Inv.Surplus
-import ArcSwapModel.Inv.HazD4
+import ArcSwapModel.Inv.Touch4
 
 /-!
 # C01 — no use-after-free (partial: containers and handles keep their value alive — global theorem;
@@ -399,6 +399,52 @@ theorem C01_guard_deref_no_fault_partial (K N T : Nat) (hK : 0 < K) (cfg : Cfg) 
     (hprog : ((run (State.initial cfg progs) sched).th t).prog = (txt, .gderef g) :: rest) :
     (microStep (run (State.initial cfg progs) sched) t b).1.sh.fault = none :=
   gderef_no_fault_env K N T hK cfg progs sched he hf t g hg b txt rest hidle hprog
+
+/-! ## No reference count is touched after destruction -/
+
+/-- **the steps that touch a count are exactly those `OpSt.touch` names**: a step of an operation
+    whose `touch` is `none` leaves every object as it is (count and liveness), except the address
+    the allocator hands out for a new value -/
+theorem C01_touch_exhaustive (st : State) (t : Nat) (b : Bool) (h : (st.th t).op.touch = none) (a : Nat) :
+    (microStep st t b).1.sh.heap a = st.sh.heap a ∨ ∃ v, a = (alloc st.sh v).2.1 :=
+  microStep_heap_of_no_touch st t b h a
+
+/-- **C01, second clause (partial): a reference count is touched only while the object is alive.**
+    For every step of every operation that increments or decrements the count of a non-null
+    object — cloning and dropping handles, promoting a guard (`Guard::into_inner`, `load_full`),
+    releasing a guard whose debt was paid, the writer's spare reference and its increment per paid
+    slot, releasing the replaced value, a rejected `new`, an unneeded replacement, the container's
+    own reference at `Drop` — the object has a positive count and has not been destroyed, so the
+    step raises no use-after-free or double-free fault: along every execution that satisfies the
+    ledger's assumptions and has raised no fault so far.
+
+    The one exception: the increment of the fallback path's candidate (`LP.fokInc`), protected by
+    the helping protocol (control word and generation), which these invariants do not cover. -/
+theorem C01_count_touched_only_while_alive_partial (K N T : Nat) (hK : 0 < K) (cfg : Cfg)
+    (progs : Nat → List (String × Op)) (sched : List (Nat × Bool))
+    (he : EnvRun0 K N T (State.initial cfg progs) sched)
+    (hf : (run (State.initial cfg progs) sched).sh.fault = none) (a : Nat) (ha : a ≠ 0)
+    (t : Nat) (ht : t < T)
+    (htouch : ((run (State.initial cfg progs) sched).th t).op.touch = some a)
+    (hnh : ((run (State.initial cfg progs) sched).th t).op.lp? ≠ some (.fokInc a)) :
+    1 ≤ ((run (State.initial cfg progs) sched).sh.heap a).cnt ∧
+      ((run (State.initial cfg progs) sched).sh.heap a).live = true :=
+  touched_object_alive K N T hK cfg progs sched he hf a ha t ht htouch hnh
+
+theorem C01_count_step_no_fault_partial (K N T : Nat) (hK : 0 < K) (cfg : Cfg)
+    (progs : Nat → List (String × Op)) (sched : List (Nat × Bool))
+    (he : EnvRun0 K N T (State.initial cfg progs) sched)
+    (hf : (run (State.initial cfg progs) sched).sh.fault = none) (a : Nat) (ha : a ≠ 0)
+    (t : Nat) (ht : t < T) (b : Bool)
+    (htouch : ((run (State.initial cfg progs) sched).th t).op.touch = some a)
+    (hnh : ((run (State.initial cfg progs) sched).th t).op.lp? ≠ some (.fokInc a)) :
+    (microStep (run (State.initial cfg progs) sched) t b).1.sh.fault = none :=
+  count_step_no_fault K N T hK cfg progs sched he hf a ha t ht b htouch hnh
+
+/-- non-vacuity: a thread about to drop a handle to object 1 is at a touching step -/
+example : (OpSt.droph 1).touch = some 1 ∧ (OpSt.droph 1).lp? ≠ some (.fokInc 1) ∧
+    (OpSt.swapPay 0 0 1 true .inc).touch = some 1 ∧ (OpSt.load 0 0 (.a3 1 0)).touch = none :=
+  ⟨rfl, by simp [OpSt.lp?], rfl, rfl⟩
 
 /-- non-vacuity of the hazard theorems: the concrete execution `hazSched` of `hazEx` (Inv/Haz6) is
     tame and fault-free and ends with thread 0 resting on a borrowed guard of value 1 that is in no
